@@ -51,6 +51,7 @@ type Exec struct {
 	clockStable bool
 	inGlobalInv bool
 	evArgsSkip  int
+	selfVal0    *Val
 	onlySafety  bool
 }
 
@@ -273,6 +274,13 @@ func (x *Exec) Verify() {
 	if len(fn.Blocks) == 0 {
 		x.errorf("function %s has no body", fn)
 		return
+	}
+	if fc != nil && len(fc.Wiring) > 0 {
+		x.checkWiring(p, fn, fc)
+	}
+	if fn.Parent() != nil && fc != nil {
+		// a closure literal: its own identity is available as `self` (for function-type contracts)
+		x.params["self"] = Val{K: KFunc, T: fn.Type(), S: x.e.fresh("self", "Int")}
 	}
 	k := &Cont{
 		ret: func(p *Path, res []Val) { x.checkExit(p, res, false) },
@@ -1981,4 +1989,57 @@ func (x *Exec) runDefers(p *Path, then func(p *Path), k *Cont) {
 		// a panic inside a deferred call: keep unwinding
 		x.runDefers(p, func(p *Path) { k.pan(p) }, k)
 	})
+}
+
+// checkWiring: static obligations that a table literal binds each name to the intended function.
+func (x *Exec) checkWiring(p *Path, fn *ssa.Function, fc *FuncContract) {
+	found := map[string]string{}
+	fnName := func(v ssa.Value) string {
+		if mi, ok := v.(*ssa.MakeInterface); ok {
+			v = mi.X
+		}
+		if ct, ok := v.(*ssa.ChangeType); ok {
+			v = ct.X
+		}
+		if f, ok := v.(*ssa.Function); ok {
+			return f.Name()
+		}
+		return ""
+	}
+	for _, b := range fn.Blocks {
+		for _, in := range b.Instrs {
+			switch in := in.(type) {
+			case *ssa.Store:
+				if fa, ok := in.Addr.(*ssa.FieldAddr); ok {
+					st := structOf(fa.X.Type())
+					tn := typeKey(fa.X.Type())
+					if i := strings.LastIndex(tn, "."); i >= 0 {
+						tn = tn[i+1:]
+					}
+					if n := fnName(in.Val); n != "" {
+						found[tn+"."+st.Field(fa.Field).Name()] = n
+					}
+				}
+			case *ssa.MapUpdate:
+				if c, ok := in.Key.(*ssa.Const); ok && c.Value != nil {
+					if n := fnName(in.Value); n != "" {
+						found["["+c.Value.ExactString()+"]"] = n
+					}
+				}
+			}
+		}
+	}
+	for _, w := range fc.Wiring {
+		i := strings.LastIndex(w, "=")
+		if i < 0 {
+			x.errorf("wiring: bad item %q", w)
+			continue
+		}
+		slot, want := w[:i], w[i+1:]
+		goal := "false"
+		if found[slot] == want {
+			goal = "true"
+		}
+		x.oblige(p, "wiring", slot, goal, nil, "table entry "+slot+" is bound to "+want+" (found "+found[slot]+")")
+	}
 }
